@@ -147,13 +147,13 @@ def parse_history(r):
     """-> list of completed ops: dict(tid, kind, args, inv, res, result)"""
     pend = {}
     ops = []
-    for step, rest in r.hist:
+    for pos, (step, rest) in enumerate(r.hist):
         t = rest.split(" ")
         if t[0] == "inv":
-            pend[int(t[1])] = dict(tid=int(t[1]), kind=t[2], args=t[3:], inv=step, seq=len(ops))
+            pend[int(t[1])] = dict(tid=int(t[1]), kind=t[2], args=t[3:], inv=pos, seq=len(ops))
         elif t[0] == "res":
             o = pend.pop(int(t[1]))
-            o["res"] = step
+            o["res"] = pos
             o["result"] = " ".join(t[2:])
             ops.append(o)
     # order of notes is the total order of the run: use positions to break step ties
@@ -302,11 +302,11 @@ def check_run(r, scen, want=("lin", "null", "scan", "deadlock", "coherent")):
                             if keys and k < keys[0]:
                                 continue
                         perkey.setdefault(k, []).append((o["inv"], o["res"], "absent", None, ""))
+    r.lin_jobs = []
     if "lin" in want:
         for k, lst in perkey.items():
             iv = init.get(k)
-            if not lin_check_key(iv.hex() if iv is not None else None, lst):
-                bad.append(("lin", "history of key %s is not linearizable: %s" % (k.hex(), lst)))
+            r.lin_jobs.append((k, iv.hex() if iv is not None else None, lst))
     if "coherent" in want:
         for stn, lb in r.lockbits.items():
             if lb != "clean":
@@ -365,12 +365,68 @@ def explore(binary, scen, strategy, workdir, budget, rng, want, jobs=16):
     viol = []
     total_steps = 0
     distinct = set()
+    jobs_l = []
     for r in runs:
         total_steps += r.steps
         distinct.add(tuple(r.schedule))
+        r.lin_jobs = []
         for (orc, desc) in check_run(r, scen, want):
             viol.append((orc, desc, r.text, r.schedule))
+        for j in r.lin_jobs:
+            jobs_l.append((r, j))
+    # the verified checker (extracted LinDefs.lin_check), one batch
+    if jobs_l:
+        verdicts = lin_batch([j for _, j in jobs_l], workdir)
+        for (r, (k, iv, lst)), ok in zip(jobs_l, verdicts):
+            if not ok:
+                viol.append(("lin", "history of key %s is not linearizable: init=%s ops=%s" % (k.hex(), iv, lst),
+                             r.text, r.schedule))
     return len(runs), viol, total_steps, len(distinct)
+
+
+def vnum(hexs):
+    """value / result text -> number token for the checker"""
+    return "1" + hexs.replace("-", "")
+
+
+def lin_line(iv, lst):
+    toks = ["-" if iv is None else vnum(iv)]
+    for (inv, res, kind, arg, result) in lst:
+        if kind in ("put", "uput"):
+            a = vnum(arg)
+            out = "ok" if result == "OK" else ("unique" if result == "WARN_UNIQUE_RESTRICTION" else "none")
+        elif kind == "get":
+            a = "-"
+            if result.startswith("OK v="):
+                out = "val:" + vnum(result[5:])
+            elif result.startswith("OK w="):
+                out = "val:" + vnum(result[5:])
+            elif result == "WARN_NOT_EXIST":
+                out = "notexist"
+            else:
+                out = "none"
+        elif kind == "rem":
+            a = "-"
+            out = "ok" if result == "OK" else ("notfound" if result == "OK_NOT_FOUND" else "none")
+        elif kind == "read":
+            a, out = vnum(arg), "none"
+        else:
+            a, out = "-", "none"
+        toks += ["%x" % inv, "%x" % res, kind, a, out]
+    return " ".join(toks)
+
+
+def lin_batch(jobs, workdir):
+    f = os.path.join(workdir, "lin_jobs.txt")
+    with open(f, "w") as fh:
+        for (k, iv, lst) in jobs:
+            fh.write(lin_line(iv, lst) + "\n")
+    rc, out = C.sh([os.path.join(C.BUILD, "lin_main"), f], timeout=600, merge=False)
+    res = [x == "1" for x in out.split()]
+    if rc != 0 or len(res) != len(jobs):
+        # fall back to the unverified search (reported in the evidence)
+        return [lin_check_key(iv, lst) for (k, iv, lst) in jobs]
+    return res
 
 
 def replay_text(scen_text, schedule):
